@@ -1,1 +1,180 @@
-// harnesses for vub_lib
+// Child module of the vhost-user-backend crate root: ghost kernel for the daemon-side harnesses
+// (epoll interest lists, eventfd counters, descriptor table) and the recording device backend.
+// Everything here is part of the claims of C11/C12/C13/C14/C15/C17 (DESIGN.md 3.2).
+use std::os::unix::io::{AsRawFd, RawFd};
+use vmm_sys_util::epoll::{ControlOperation, Epoll, EpollEvent, EventSet};
+use vmm_sys_util::event::{EventConsumer, EventNotifier};
+
+pub(crate) const NREG: usize = 6; // interest-list entries tracked (over all epoll instances)
+pub(crate) const NFD: usize = 8; // eventfds tracked: descriptor numbers FD0..FD0+NFD
+pub(crate) const FD0: RawFd = 200;
+
+pub(crate) struct VGhost {
+    // epoll interest lists: (used, epoll fd, watched fd, user data)
+    pub reg_used: [bool; NREG],
+    pub reg_ep: [RawFd; NREG],
+    pub reg_fd: [RawFd; NREG],
+    pub reg_data: [u64; NREG],
+    pub reg_overflow: bool,
+    // eventfd counters (kicks raised and not yet consumed), notify counts (call fds)
+    pub counter: [u32; NFD],
+    pub notified: [u32; NFD],
+    pub consumed_empty: bool, // a consume() on a zero counter (would block / EAGAIN on a real eventfd)
+    pub closed: [bool; NFD],
+    pub double_close: bool,
+    // recording device backend
+    pub num_queues: usize,
+    pub max_queue_size: usize,
+    pub features: u64,
+    pub he_calls: u32, // handle_event invocations
+    pub he_event: u16,
+    pub he_thread: usize,
+    pub he_nvrings: usize,
+    pub he_ring_id: usize, // identity of vrings[device_event] (address of its shared state)
+    pub he_ring_active: bool, // was that ring started (ready) and enabled when the handler ran
+    pub acked: u64,
+    pub acked_calls: u32,
+    pub event_idx: bool,
+    pub event_idx_calls: u32,
+    pub reset_calls: u32,
+    pub marker: u64,
+}
+pub(crate) static mut VG: VGhost = VGhost {
+    reg_used: [false; NREG], reg_ep: [-1; NREG], reg_fd: [-1; NREG], reg_data: [0; NREG], reg_overflow: false,
+    counter: [0; NFD], notified: [0; NFD], consumed_empty: false, closed: [false; NFD], double_close: false,
+    num_queues: 2, max_queue_size: 256, features: 0, he_calls: 0, he_event: 0, he_thread: 0, he_nvrings: 0,
+    he_ring_id: 0, he_ring_active: false, acked: 0, acked_calls: 0, event_idx: false, event_idx_calls: 0, reset_calls: 0,
+    marker: 0x7675_6220_6768_6f73,
+};
+#[allow(static_mut_refs)]
+pub(crate) fn vg() -> &'static mut VGhost {
+    // SAFETY: single-threaded harness
+    unsafe { &mut VG }
+}
+
+/// is (ep, fd) in the interest list of ep; returns the registered data
+pub(crate) fn registered(ep: RawFd, fd: RawFd) -> Option<u64> {
+    let g = vg();
+    let mut i = 0;
+    while i < NREG {
+        if g.reg_used[i] && g.reg_ep[i] == ep && g.reg_fd[i] == fd {
+            return Some(g.reg_data[i]);
+        }
+        i += 1;
+    }
+    None
+}
+pub(crate) fn registrations_of(fd: RawFd) -> usize {
+    let g = vg();
+    let mut n = 0;
+    let mut i = 0;
+    while i < NREG {
+        if g.reg_used[i] && g.reg_fd[i] == fd {
+            n += 1;
+        }
+        i += 1;
+    }
+    n
+}
+
+/// stub for Epoll::ctl.  Linux semantics: ADD of a present fd is EEXIST, DEL of an absent one ENOENT.
+/// The code under test deliberately ignores exactly these two outcomes, so they are reported as Ok
+/// (an io::Error value on this path makes CBMC explore the io::Error drop glue at every later drop).
+pub(crate) fn ghost_epoll_ctl(ep: &Epoll, op: ControlOperation, fd: RawFd, ev: EpollEvent) -> std::io::Result<()> {
+    let g = vg();
+    let epfd = ep.as_raw_fd();
+    let mut i = 0;
+    let mut free = NREG;
+    let mut found = NREG;
+    while i < NREG {
+        if g.reg_used[i] && g.reg_ep[i] == epfd && g.reg_fd[i] == fd {
+            found = i;
+        }
+        if !g.reg_used[i] && free == NREG {
+            free = i;
+        }
+        i += 1;
+    }
+    match op {
+        ControlOperation::Add => {
+            if found == NREG {
+                if free == NREG {
+                    g.reg_overflow = true;
+                } else {
+                    g.reg_used[free] = true;
+                    g.reg_ep[free] = epfd;
+                    g.reg_fd[free] = fd;
+                    g.reg_data[free] = ev.data();
+                }
+            }
+        }
+        ControlOperation::Delete => {
+            if found != NREG {
+                g.reg_used[found] = false;
+            }
+        }
+        _ => {}
+    }
+    Ok(())
+}
+
+fn slot(fd: RawFd) -> Option<usize> {
+    if fd >= FD0 && fd < FD0 + NFD as RawFd { Some((fd - FD0) as usize) } else { None }
+}
+/// stub for EventConsumer::consume (eventfd read: returns the counter and resets it)
+pub(crate) fn ghost_consume(c: &EventConsumer) -> Result<(), std::io::Error> {
+    if let Some(k) = slot(c.as_raw_fd()) {
+        let g = vg();
+        if g.counter[k] == 0 {
+            g.consumed_empty = true;
+        }
+        g.counter[k] = 0;
+    }
+    Ok(())
+}
+/// stub for EventNotifier::notify (eventfd write)
+pub(crate) fn ghost_notify(n: &EventNotifier) -> Result<(), std::io::Error> {
+    if let Some(k) = slot(n.as_raw_fd()) {
+        vg().notified[k] += 1;
+    }
+    Ok(())
+}
+/// closing a descriptor removes it from every interest list (Linux: when the last reference to the open
+/// file goes away; the model gives the daemon the only reference)
+pub(crate) fn ghost_fd_closed(fd: RawFd) {
+    let g = vg();
+    if let Some(k) = slot(fd) {
+        if g.closed[k] {
+            g.double_close = true;
+        }
+        g.closed[k] = true;
+    }
+    let mut i = 0;
+    while i < NREG {
+        if g.reg_used[i] && g.reg_fd[i] == fd {
+            g.reg_used[i] = false;
+        }
+        i += 1;
+    }
+}
+pub(crate) fn ghost_ownedfd_drop(fd: &mut std::os::fd::OwnedFd) {
+    ghost_fd_closed(fd.as_raw_fd());
+}
+pub(crate) unsafe extern "C" fn ghost_close(fd: libc::c_int) -> libc::c_int {
+    ghost_fd_closed(fd);
+    0
+}
+pub(crate) fn ghost_alloc_error(_l: std::alloc::Layout) -> ! {
+    kani::assume(false);
+    loop {}
+}
+pub(crate) fn kick(fd: RawFd) {
+    if let Some(k) = slot(fd) {
+        vg().counter[k] += 1;
+    }
+}
+pub(crate) fn pending(fd: RawFd) -> bool {
+    slot(fd).map_or(false, |k| vg().counter[k] > 0)
+}
+#[allow(dead_code)]
+fn _unused(_: EventSet) {}
